@@ -133,21 +133,6 @@ Fixpoint model_obs (c : cfg) (w : world) (ops : list op) : list (iobs tree) :=
   | o :: t => obs_of c w o :: model_obs c (fst (step c w o)) t
   end.
 
-(* side condition of the determinism clause: the model's fuel-indexed deepcopy never ran out of fuel *)
-Fixpoint no_fuel_exhaustion (c : cfg) (w : world) (ops : list op) : Prop :=
-  match ops with
-  | [] => True
-  | o :: t =>
-      (match o with
-       | OWrite wid k wo si =>
-           match nth_error (w_sets w) si with
-           | Some s => forall wi, wr_result (write c k wo wi (w_st w) s) <> Err EOutOfFuel
-           | None => True
-           end
-       | _ => True
-       end) /\ no_fuel_exhaustion c (fst (step c w o)) t
-  end.
-
 (* ---- list lemmas about the oracle's comparisons ------------------------------------------------------------------------- *)
 Lemma prefix_same_map : forall (f g : val -> tree) sets extra,
   (forall sk, In sk sets -> g sk = f sk) ->
@@ -202,11 +187,11 @@ Lemma step_sets_write : forall c w wid k wo si, w_sets (fst (step c w (OWrite wi
 Proof. intros. unfold step. destruct (nth_error (w_sets w) si); reflexivity. Qed.
 
 Lemma c09_gen : forall c ops w i seen,
-  repaired c -> fix15 c = true -> wf_world w -> seen_ok seen -> no_fuel_exhaustion c w ops ->
+  repaired c -> fix15 c = true -> wf_world w -> seen_ok seen ->
   check_hist tree tree_eqb TCut true false i (digests_of w) seen (model_obs c w ops) = [].
 Proof.
-  intros c ops. induction ops as [|o t IH]; intros w i seen Hc Hf Hw Hseen Hnf; [reflexivity|].
-  cbn [model_obs check_hist]. destruct Hnf as [Hnf0 Hnft].
+  intros c ops. induction ops as [|o t IH]; intros w i seen Hc Hf Hw Hseen; [reflexivity|].
+  cbn [model_obs check_hist].
   pose proof (step_wf_world c w o Hc Hw) as Hw1.
   destruct o as [tr|rid rk tr|wid k wo si|si e].
   - (* build *) cbn [obs_of io_kind io_digests]. cbn [Z.eqb andb app]. apply IH; auto.
@@ -227,8 +212,7 @@ Proof.
       rewrite Hdg.
       assert (Hb : below (length (w_st w)) s) by (eapply nth_error_Forall; [exact (proj2 Hw)|exact Es]).
       assert (Hres : wr_result (write c k wo wi (w_st w) s) = output_of k wo (snap FUEL (w_st w) s)).
-      { destruct (write_result_function_of_snapshot c k wo wi (w_st w) s Hf (proj1 Hw) Hb) as [H|H]; [|exact H].
-        exfalso. apply (Hnf0 wi H). }
+      { apply write_result_is_output_of; auto. exact (proj1 Hw). }
       fold wi. rewrite Hres. rewrite conflicting_false by exact Hseen. cbn [app].
       rewrite <- Hsame. apply IH; auto.
       constructor; [|exact Hseen]. exists k, wo. cbn [fst snd]. split; reflexivity.
@@ -242,10 +226,10 @@ Qed.
    ok_c09 - instantiated on the model's own snapshots and outputs - finds nothing: no write changes any set, and equal
    (writer, options, snapshot) give equal results *)
 Theorem model_meets_ok_c09 : forall c ops,
-  repaired c -> fix15 c = true -> no_fuel_exhaustion c world0 ops ->
+  repaired c -> fix15 c = true ->
   check_hist tree tree_eqb TCut true false 0 [] [] (model_obs c world0 ops) = [].
 Proof.
-  intros c ops Hc Hf Hnf. apply (c09_gen c ops world0 0%Z [] Hc Hf wf_world0 (Forall_nil _) Hnf).
+  intros c ops Hc Hf. apply (c09_gen c ops world0 0%Z [] Hc Hf wf_world0 (Forall_nil _)).
 Qed.
 
 (* ---- C10: the model meets ok_c10 ------------------------------------------------------------------------------------------ *)
